@@ -273,7 +273,7 @@ CHECKS = {
         technique='fault enumeration over a generated baseline exchange against a scripted reference server (rapid + enumerated fault catalogue)',
         rule=('case = (baseline exchange, fault = step x field x corruption x bit position). Every executed fault is non-trivial; distinct by hash of the scenario. '
               'Oracle: CreateConnection returns a non-nil error (a panic is not an error return), no session file afterwards, no encrypted frame reaches the server, child alive.'),
-        must_hit=['baseline:zero-server_nonce', 'baseline:zero-nonce', 'fault:rpc_error-naming-a-configured-data-centre', 'fault:resPQ.nonce:previous-exchange', 'fault:resPQ.kind:rpc_error', 'fault:dhParams.kind:rpc_error', 'fault:dhGen.kind:rpc_error', 'step:resPQ', 'step:dhParams', 'step:dhInner', 'step:dhGen', 'fault:resPQ.fingerprints:other-clients-key', 'fault:resPQ.fingerprints:empty', 'fault:dhInner.sha1:prefix-flip', 'fault:dhInner.sha1:content-flip',
+        must_hit=['fault:resPQ.kind:other-object', 'fault:dhParams.kind:other-object', 'fault:dhGen.kind:other-object', 'baseline:zero-server_nonce', 'baseline:zero-nonce', 'fault:rpc_error-naming-a-configured-data-centre', 'fault:resPQ.nonce:previous-exchange', 'fault:resPQ.kind:rpc_error', 'fault:dhParams.kind:rpc_error', 'fault:dhGen.kind:rpc_error', 'step:resPQ', 'step:dhParams', 'step:dhInner', 'step:dhGen', 'fault:resPQ.fingerprints:other-clients-key', 'fault:resPQ.fingerprints:empty', 'fault:dhInner.sha1:prefix-flip', 'fault:dhInner.sha1:content-flip',
                   'fault:dhGen.new_nonce_hash:flip', 'fault:dhGen.kind:gen_retry', 'fault:dhGen.kind:gen_fail', 'fault:dhParams.kind:params_fail', 'aftermath sent: new-session', 'aftermath sent: bad-salt', 'aftermath sent: update', 'aftermath sent: close', 'aftermath sent: app-reconnect', 'verdict:ok'],
         fold={'fault:': ('fault_classes_covered', 60)},
         assumptions=['not generated because the statement does not list them: a different server_nonce in resPQ (the server chooses it), corrupted pq, g, dh_prime, g_a, server_time'],
